@@ -11,7 +11,10 @@ Three ties between the theorems (lean/Pw/C03/*.lean) and the code under test:
     compared after every call: raised?, per-layer edges, is_valid_mec_graph.
  3. spec – every implementation trace is judged directly against the Lean-defined spec predicates
     (`GoodP`/`GoodC`, `OrientOnlyP`/`OrientOnlyC`, tabulated through the driver at start-up), also
-    for the time-series classes for which there is no model."""
+    for the time-series classes.  StationaryTimeSeriesCPDAG traces are additionally compared call by call with
+    the node-level C13 model (`c13crun`; theorems C03.C03_tscpdag, lean/Pw/C03/TimeSeries.lean, re-elaborated
+    in tie 1 because guardBad_eq_addC ties the model's guard to the translated guard); the unguarded
+    StationaryTimeSeriesPAG (known finding) has no theorem to be tied to."""
 import copy
 import itertools
 import json
@@ -559,8 +562,9 @@ def gen_random(ctx, spec, count):
 
 
 def gen_ts(ctx, count):
-    """time-series classes (no model; judged against the spec predicates only).  4 nodes = 2
-    variables x lags {0,-1}; lag-respecting and lag-violating pairs are both generated"""
+    """time-series classes (TSCPDAG: compared with the C13 model and judged against the spec predicates; TSPAG:
+    spec predicates only).  4 nodes = 2 variables x lags {0,-1}; lag-respecting and lag-violating pairs are both
+    generated"""
     rng = ctx["rng"]
     for i in range(count):
         cls = ("TSCPDAG", "TSPAG")[i % 2]
@@ -790,7 +794,10 @@ def run(ctx):
                "pair state x every ordered pair of single calls; random = histories of length 2..30 from empty, random "
                "Good, or arbitrary start states, five label families; constructors = every subset of entries on one "
                "pair (also duplicated/reversed) + random lists; time-series classes = random histories over 2 variables "
-               "x 2 lags judged against the spec predicates only. After every call: raised?, per-layer edges, "
+               "x 2 lags: StationaryTimeSeriesCPDAG compared call by call with the node-level C13 model (C13.crun, incl. "
+               "orient_uncertain_edge, 'all', unknown edge types, bulk lists) and judged against the spec predicates, "
+               "StationaryTimeSeriesPAG (unguarded, known finding) judged against the spec predicates only. After every "
+               "call: raised?, per-layer edges, "
                "is_valid_mec_graph, node count. non-trivial = some call names a pair that already carries a mark")
     ev.assumptions = ["calls name two different nodes that are already in the graph (self loops are outside the "
                       "property's 'node pair' quantifier)",
